@@ -43,10 +43,10 @@ def tryNP (st : St) (id : Bytes) (pts : List Point) : St :=
 def tryEP (st : St) (id parent : Bytes) (pts : List Point) : St :=
   match edgePoints st id parent pts with | .ok s => s | _ => st
 
-/-- SendNode(node) into a store: node points, then edge points (a tombstone-0 stamped `now` when there are
-    none) with the node type appended; `none` = SendNode returned an error -/
+/-- SendNode(node) into a store: node points, then edge points (plus a tombstone-0 stamped `now` when they carry no
+    tombstone point) with the node type appended; `none` = SendNode returned an error -/
 def sendNode (st : St) (n : NE) (now : Int) : Option St :=
-  let eps := (if n.epts.isEmpty then [{ type := tombstoneT, time := now }] else n.epts) ++ [{ type := nodeTypeT, text := n.typ, time := now }]
+  let eps := n.epts ++ (if Export.hasTomb n.epts then [] else [{ type := tombstoneT, time := now }]) ++ [{ type := nodeTypeT, text := n.typ, time := now }]
   if n.id = [] ∨ n.parent = [] ∨ n.parent = noneS then none
   else
     match nodePoints st n.id n.pts with
